@@ -1052,6 +1052,9 @@ def run(chk, F):
     run_r2(chk, sides)
     run_r3(chk, sides)
     run_r4(chk, sides)
+    # guarded narrowing casts of operand values (coordinator's rule, rules/narrowcast.py)
+    from rules import narrowcast
+    narrowcast.run(chk, F, "C07.R5", "dora_asm::x64", "x64 assembler (Rust)")
     chk.assumptions += [
         "register operands are numbered 0..15 (Register::new asserts it; the constants are 0..15), so `n & 7` / `n > 7` are "
         "the low three bits / the extension bit",
